@@ -161,4 +161,35 @@ theorem initial_tx_after_output_drops_it :
       = some true := by
   refine ⟨by decide, by decide, by decide⟩
 
+/-- **`with_excess` may stand anywhere as far as the body is concerned**: the inputs and outputs of
+the finished transaction are those of the list with every `with_excess` removed (and by
+`builder_offset_perm` the offset does not depend on where it stands either). -/
+theorem body_ignores_with_excess (elems : List XStep) (st : BuildSt) :
+    (runX st elems).ins = (runX st (elems.filter (fun e => !isExcess e))).ins ∧
+    (runX st elems).outs = (runX st (elems.filter (fun e => !isExcess e))).outs :=
+  runX_body_drop_excess elems st
+
+/-- **`partial_transaction(base, elems)`: the base transaction contributes nothing to the blinding
+sum** — the sum returned is that of the elements alone, whatever body the fold starts from (the
+blinding of the base has to be handed in with `with_excess`). -/
+theorem partial_sum_ignores_base (bi bo : List Opening) (elems : List XStep) :
+    (xPartialTransaction bi bo elems).2.2 = (xPartialTransaction [] [] elems).2.2 := by
+  obtain ⟨h1, h2, h3⟩ := runX_keys_indep_body elems { ins := bi, outs := bo } { ins := [], outs := [] } rfl rfl rfl
+  simp only [xPartialTransaction, h1, h2, h3]
+
+/-- **an `initial_tx` among the elements replaces the base as well**: the body
+`partial_transaction(base, pre ++ [initial_tx(tx)] ++ post)` returns is the one
+`partial_transaction(tx, post)` returns. -/
+theorem partial_base_replaced (bi bo i o : List Opening) (pre post : List XStep) :
+    (xPartialTransaction bi bo (pre ++ .initialTx i o :: post)).1 = (xPartialTransaction i o post).1 ∧
+    (xPartialTransaction bi bo (pre ++ .initialTx i o :: post)).2.1 = (xPartialTransaction i o post).2.1 := by
+  have h := body_after_initial_tx { ins := bi, outs := bo } pre post i o
+  simp only [xPartialTransaction]
+  exact h
+
+/-- non-vacuity: a base with one input, elements `[with_excess, output, with_excess]` -/
+example : (xPartialTransaction [⟨7, 3⟩] [] [.base (.withExcess 5), .base (.output ⟨4, 11⟩), .base (.withExcess 2)]).1 = [⟨7, 3⟩] ∧
+    (xPartialTransaction [⟨7, 3⟩] [] [.base (.withExcess 5), .base (.output ⟨4, 11⟩), .base (.withExcess 2)]).2.2 = .ok 18 := by
+  refine ⟨by decide, by decide⟩
+
 end GV.Props.C20
